@@ -4,6 +4,7 @@ package c14
 import (
 	"encoding/json"
 	"fmt"
+	"math/big"
 	"net/netip"
 	"strings"
 	"testing"
@@ -137,13 +138,23 @@ func roundtrip(site string, v any, fresh any) (string, *rp.Fail) {
 	if err != nil {
 		return "", rp.Failf(site+".MarshalJSON/error", "marshalling an in-domain value failed: %v", err)
 	}
+	document := string(js)
 	if p := try(func() { err = json.Unmarshal(js, fresh) }); p != nil {
 		return string(js), rp.Failf(site+".UnmarshalJSON/panic", "decoding %s into a fresh zero value panicked: %v", js, p)
+	}
+	if string(js) != document {
+		return document, rp.Failf(site+".UnmarshalJSON/modifies-the-document", "decoding changed the caller's JSON document from %s to %s", document, js)
 	}
 	if err != nil {
 		return string(js), rp.Failf(site+".UnmarshalJSON/rejects-own-encoding", "decoding %s failed: %v", js, err)
 	}
-	return string(js), nil
+	// the document's bytes belong to the caller (a read buffer that is reused): the decoded value - which the callers of this
+	// function compare afterwards - must not refer to them
+	text := string(js)
+	for i := range js {
+		js[i] = 0xa5
+	}
+	return text, nil
 }
 
 func numericAbbrev(js string) bool {
@@ -461,6 +472,11 @@ func decideReject(c jCase) *rp.Fail {
 			var v types.PIN
 			err = json.Unmarshal(js, &v)
 			got = fmt.Sprint(v)
+		case "PINNumber": // the PIN as a JSON number
+			var v types.PIN
+			err = json.Unmarshal([]byte(c.Text), &v)
+			got = fmt.Sprint(v)
+			site = "types.PIN"
 		case "ControlState":
 			var v types.ControlState
 			err = json.Unmarshal(js, &v)
@@ -742,6 +758,22 @@ func rejectCases() []jCase {
 		}
 	}
 	add("PIN", "1000000", "0000000", "9999999", "12345678", "123456789012", "0000001", "99999999999999999999")
+	// numbers that are congruent to an in-domain value modulo 2^8, 2^16, 2^32 or 2^64 (an unchecked accumulator wraps)
+	for _, k := range []string{"1", "7", "13"} {
+		kk, _ := new(big.Int).SetString(k, 10)
+		for _, bits := range []uint{8, 16, 32, 64} {
+			for _, m := range []int64{1, 3} {
+				v := new(big.Int).Add(new(big.Int).Mul(big.NewInt(m), new(big.Int).Lsh(big.NewInt(1), bits)), kk)
+				out = append(out, jCase{Type: "TaskType", Reject: true, Text: v.String(), U: 1})
+				add("TaskType", v.String())
+			}
+		}
+	}
+	for _, bits := range []uint{32, 64} {
+		v := new(big.Int).Add(new(big.Int).Lsh(big.NewInt(1), bits), big.NewInt(7531))
+		add("PIN", v.String())
+		out = append(out, jCase{Type: "PINNumber", Reject: true, Text: v.String()})
+	}
 	add("ControlState", "", "open", "locked", "normally-open", "Normally Open", "CONTROLLED", "unknown", "3", "normally  open", " controlled")
 	for _, n := range []string{"0", "14", "15", "99", "256", "00", "1000000"} {
 		out = append(out, jCase{Type: "TaskType", Reject: true, Text: n, U: 1})
